@@ -51,29 +51,7 @@ func runC03(w *World, r *Report) {
 	li := ComputeLocks(w, acctScope)
 
 	// 1. reserve before insert
-	r.rule("reserve-before-insert", "every AddVertexByID(id, v) is dominated by the success edge of saveTrxInVertex(v.Transaction.Hash, v.Hash) for the same v", 4)
-	for _, s := range admissionSites(w) {
-		fn := s.Parent()
-		r.seen(shortFn(fn))
-		_, args := callArgs(s)
-		v := pathOf(args[1])
-		key := shortFn(fn) + "/AddVertexByID(" + v + ")"
-		found := false
-		why := "no saveTrxInVertex call in the function"
-		for _, g := range callsTo(fn, nSaveTrx) {
-			_, ga := callArgs(g)
-			if !behind(s, passErrNil(g)) {
-				why = "saveTrxInVertex at " + lineOf(w, g) + " does not dominate the insertion through its success edge"
-				continue
-			}
-			if pathOf(ga[1]) != v+".Hash" || !trxHashPathOK(fn, v, pathOf(ga[0])) {
-				why = fmt.Sprintf("reservation is for (%s, %s), not for the inserted vertex %s", pathOf(ga[0]), pathOf(ga[1]), v)
-				continue
-			}
-			found = true
-		}
-		r.check(found, "reserve-before-insert", key, lineOf(w, s), "insertion only after the transaction hash was reserved for this vertex", why)
-	}
+	reserveBeforeInsert(w, r, "reserve-before-insert", "", 4)
 
 	// 2. atomic reservation, no other writers
 	r.rule("reservation-atomic", "saveTrxInVertex: SetEntry lies behind the not-found edge of Get on the same badger transaction and key, inside one Update on trxsToVertxDB", 1)
@@ -174,6 +152,44 @@ func runC03(w *World, r *Report) {
 				return trxHashPathOKUp(w, fn, v, pathOf(ra[0]), 2)
 			})
 			r.check(len(exits) == 0, "delete-with-index", key+"("+v+")", lineOf(w, d), "index entry of the deleted vertex is removed on every path", fmt.Sprintf("%d exits reachable without removeTrxInVertex(%s.Transaction.Hash)", len(exits), v))
+		}
+	}
+
+	// 3b'. an index entry is released only together with its vertex or as the roll-back of its own reservation
+	r.rule("index-removal-paired", "every removeTrxInVertex(h) is dominated by the successful reservation of h in the same operation (roll-back) or by DeleteVertex of the vertex that carries h (a checkpointed vertex is in neither situation, so its entry stays for ever)", 4)
+	for _, fn := range w.RepoFuncs("accountant") {
+		for _, c := range callsTo(fn, nRemoveTrx) {
+			_, ra := callArgs(c)
+			h := pathOf(ra[0])
+			reserved := func(fn2 *ssa.Function, res resolver) []Edge {
+				var es []Edge
+				for _, sc := range callsTo(fn2, nSaveTrx) {
+					_, sa := callArgs(sc)
+					if res(sa[0]) == h {
+						es = append(es, passErrNil(sc)...)
+					}
+				}
+				return es
+			}
+			ok := behindAll(w, c.(ssa.Instruction), idMap, reserved, 2)
+			if !ok {
+				// every way to the removal passes the deletion of the vertex carrying h
+				reached := false
+				walkFrom(nil, fn.Blocks[0], nil, func(in ssa.Instruction) bool {
+					if dc, isC := in.(ssa.CallInstruction); isC && calleeName(dc) == nDeleteVertex {
+						_, da := callArgs(dc)
+						if vx, isV := vertexOfHashArg(da[0]); isV && trxHashPathOKUp(w, fn, pathOf(vx), h, 2) {
+							return true
+						}
+					}
+					if in == c.(ssa.Instruction) {
+						reached = true
+					}
+					return reached
+				})
+				ok = !reached
+			}
+			r.check(ok, "index-removal-paired", shortFn(fn)+"/removeTrxInVertex("+h+")", lineOf(w, c), "the index entry is released as a roll-back or together with its vertex", "removal reachable without a preceding reservation of the same hash or deletion of its vertex")
 		}
 	}
 
@@ -392,5 +408,36 @@ func rollbackReservation(w *World, r *Report, rule string) {
 			}
 			r.check(bad == 0, rule, spec+"/success-paths("+hp+")", lineOf(w, g), "no success return after the index entry was removed", fmt.Sprintf("%d success returns reachable after removeTrxInVertex", bad))
 		}
+	}
+}
+
+// reserveBeforeInsert: shared by C03 (all admission sites) and C14 (only = "LoadDag": a stream that carries one
+// transaction in two vertices is refused because the second reservation fails).
+func reserveBeforeInsert(w *World, r *Report, rule, only string, floor int) {
+	r.rule(rule, "every AddVertexByID(id, v) is dominated by the success edge of saveTrxInVertex(v.Transaction.Hash, v.Hash) for the same v", floor)
+	for _, s := range admissionSites(w) {
+		fn := s.Parent()
+		if only != "" && refName(ownerFn(fn)) != only {
+			continue
+		}
+		r.seen(shortFn(fn))
+		_, args := callArgs(s)
+		v := pathOf(args[1])
+		key := shortFn(fn) + "/AddVertexByID(" + v + ")"
+		found := false
+		why := "no saveTrxInVertex call in the function"
+		for _, g := range callsTo(fn, nSaveTrx) {
+			_, ga := callArgs(g)
+			if !behind(s, passErrNil(g)) {
+				why = "saveTrxInVertex at " + lineOf(w, g) + " does not dominate the insertion through its success edge"
+				continue
+			}
+			if pathOf(ga[1]) != v+".Hash" || !trxHashPathOK(fn, v, pathOf(ga[0])) {
+				why = fmt.Sprintf("reservation is for (%s, %s), not for the inserted vertex %s", pathOf(ga[0]), pathOf(ga[1]), v)
+				continue
+			}
+			found = true
+		}
+		r.check(found, rule, key, lineOf(w, s), "insertion only after the transaction hash was reserved for this vertex", why)
 	}
 }
